@@ -1,11 +1,23 @@
 (* C15 — Endpoints match exactly when topic, type, partition and RxO QoS are compatible.
-   Property file: statements, `exact`, assumptions. *)
-From DustDDS Require Import Base.Machine Qos.CompatModel Qos.CompatProofs.
+   Property file: statements, `exact`, non-vacuity examples, assumptions.
+   Vocabulary (all in Qos/*Model.v):
+     reader_incompatible w r / writer_incompatible r w : the two functions of discovery_methods.rs
+     dds_rxo, spec_policy_fails, spec_failing           : DDS 1.4 request/offered table
+     known_rxo (= known_liveliness || known_presentation): the two recorded defect classes
+     fnmatch_to_regex, compile, reps_match, partition_matched : translator, regex crate, partition test
+     fnmatch, dds_partition_match                       : POSIX fnmatch, DDS 1.4 PARTITION rule
+     writer_side / reader_side                          : the decision of the two call sites
+     dds_should_match, dds_incompatible_pair            : the property *)
+From DustDDS Require Import Base.Machine Qos.CompatModel Qos.CompatProofs Qos.PartitionModel
+  Qos.PartitionProofs Qos.MatchModel Qos.MatchProofs.
+From Coq Require Import Permutation.
 Open Scope Z_scope.
 
-(* get_discovered_reader_incompatible_qos_policy_list returns the empty list (the pair is
-   matched) exactly when every request/offered policy is compatible per the DDS table --
-   for all QoS values with normalized durations outside the two recorded defect classes *)
+(* ---- request/offered QoS ---- *)
+
+(* get_discovered_reader_incompatible_qos_policy_list returns the empty list (the pair gets
+   matched) exactly when every RxO policy is compatible per the DDS table: all kinds, all
+   normalized durations, outside the two recorded defect classes *)
 Theorem C15_reader_side_eq_spec :
   forall w r, eqos_normalized w -> eqos_normalized r -> known_rxo w r = false ->
     (reader_incompatible w r = [] <-> dds_rxo w r = true).
@@ -16,5 +28,175 @@ Theorem C15_writer_side_eq_spec :
     (writer_incompatible r w = [] <-> dds_rxo w r = true).
 Proof. exact writer_side_eq_spec. Qed.
 
+(* the writer-side and the reader-side function always agree (no hypothesis at all, not even
+   normalization): same policy ids, in a different order *)
+Theorem C15_both_functions_agree :
+  forall w r, Permutation (reader_incompatible w r) (writer_incompatible r w).
+Proof. exact both_sides_permutation. Qed.
+
+(* the reported list names exactly the failing policies, each once *)
+Theorem C15_reader_reported_policies_exact :
+  forall w r, eqos_normalized w -> eqos_normalized r -> known_rxo w r = false ->
+    forall id, In id (reader_incompatible w r) <-> spec_policy_fails id w r = true.
+Proof. exact reader_reported_policies_exact. Qed.
+
+Theorem C15_writer_reported_policies_exact :
+  forall r w, eqos_normalized w -> eqos_normalized r -> known_rxo w r = false ->
+    forall id, In id (writer_incompatible r w) <-> spec_policy_fails id w r = true.
+Proof. exact writer_reported_policies_exact. Qed.
+
+Theorem C15_reported_policies_no_duplicates :
+  forall w r, NoDup (reader_incompatible w r) /\ NoDup (writer_incompatible r w).
+Proof. exact (fun w r => conj (NoDup_reader_incompatible w r) (NoDup_writer_incompatible r w)). Qed.
+
+(* complete characterisation, defect classes included: a policy is reported iff the standard
+   fails it, EXCEPT inside that policy's class where the code says the opposite; so the two
+   classes are exactly the pairs on which the code is wrong, policy by policy *)
+Theorem C15_reported_policies_characterised :
+  forall w r, eqos_normalized w -> eqos_normalized r ->
+    forall id, In id (reader_incompatible w r) <->
+               xorb (spec_policy_fails id w r) (known_for id w r) = true.
+Proof. exact reader_reported_policies_characterised. Qed.
+
+(* the derived (sec, nanosec) order is the order of the lengths exactly on normalized values *)
+Theorem C15_duration_order_is_length_order :
+  forall a b, duration_normalized a -> duration_normalized b ->
+    duration_pcmp a b = Some (duration_ns a ?= duration_ns b).
+Proof. exact duration_pcmp_ns. Qed.
+
+(* D18, liveliness: with equal kinds an offered lease of 20 s against a requested 10 s is
+   matched by both functions although the standard says incompatible ... *)
+Theorem C15_liveliness_class_false_match :
+  exists w r, eqos_normalized w /\ eqos_normalized r /\ known_liveliness w r = true /\
+    reader_incompatible w r = [] /\ writer_incompatible r w = [] /\ dds_rxo w r = false.
+Proof. exact (ex_intro _ _ (ex_intro _ _ liveliness_false_match)). Qed.
+
+(* ... and 10 s against 20 s is reported as incompatible LIVELINESS although compatible *)
+Theorem C15_liveliness_class_false_incompatibility :
+  exists w r, eqos_normalized w /\ eqos_normalized r /\ known_liveliness w r = true /\
+    reader_incompatible w r = [LIVELINESS_ID] /\ writer_incompatible r w = [LIVELINESS_ID] /\ dds_rxo w r = true.
+Proof. exact (ex_intro _ _ (ex_intro _ _ liveliness_false_incompatibility)). Qed.
+
+(* D18, presentation: coherent_access offered and not requested is reported incompatible *)
+Theorem C15_presentation_class_false_incompatibility :
+  exists w r, eqos_normalized w /\ eqos_normalized r /\ known_presentation w r = true /\
+    reader_incompatible w r = [PRESENTATION_ID] /\ writer_incompatible r w = [PRESENTATION_ID] /\ dds_rxo w r = true.
+Proof. exact (ex_intro _ _ (ex_intro _ _ presentation_false_incompatibility)). Qed.
+
+(* ---- partitions ---- *)
+
+(* for every pattern fnmatch can read (plain characters, `*`, `?`, `\x`, bracket lists and
+   ranges) without an unquoted `+`: the regex built by fnmatch_to_regex compiles, and on
+   every name without a line feed it decides exactly what fnmatch decides *)
+Theorem C15_translator_is_fnmatch :
+  forall p fts, fn_tokens p = Some fts -> has_plus p = false ->
+    compile p = POk (map rep_of fts) /\
+    forall s, has_newline s = false -> reps_match (map rep_of fts) s = fn_match fts s.
+Proof. exact compile_is_fnmatch. Qed.
+
+(* the partition test of both call sites is the PARTITION rule of DDS 1.4 on all lists of
+   supported names outside the four recorded deviation classes *)
+Theorem C15_partition_match_eq_spec :
+  forall received local,
+    names_supported received = true -> names_supported local = true ->
+    known_partition received local = false ->
+    partition_matched received local = Some (dds_partition_match received local).
+Proof. exact partition_match_eq_spec. Qed.
+
+(* which side is "received" and which "local" never matters *)
+Theorem C15_partition_roles_symmetric :
+  forall a b, partition_matched a b = partition_matched b a /\
+              dds_partition_match a b = dds_partition_match b a.
+Proof. exact (fun a b => conj (partition_matched_sym a b) (dds_partition_match_sym a b)). Qed.
+
+(* each deviation class contains a pair of lists on which the code and the standard differ:
+   "a+" ~ "aa";  [] vs [""];  "a*" ~ "ab*";  "a?b" vs "a<LF>b" *)
+Theorem C15_partition_classes_refuted :
+  (exists a b, known_plus a b = true /\ partition_matched a b = Some true /\ dds_partition_match a b = false) /\
+  (exists a b, known_default a b = true /\ partition_matched a b = Some false /\ dds_partition_match a b = true) /\
+  (exists a b, known_two_wildcards a b = true /\ partition_matched a b = Some true /\ dds_partition_match a b = false) /\
+  (exists a b, known_newline a b = true /\ partition_matched a b = Some false /\ dds_partition_match a b = true).
+Proof.
+  exact (conj (ex_intro _ _ (ex_intro _ _ plus_refuted))
+        (conj (ex_intro _ _ (ex_intro _ _ default_refuted))
+        (conj (ex_intro _ _ (ex_intro _ _ two_wildcards_refuted))
+              (ex_intro _ _ (ex_intro _ _ newline_refuted))))).
+Qed.
+
+(* ---- the whole decision ---- *)
+
+(* both participants reach the same verdict, for EVERY configuration (no hypothesis):
+   nothing / inconsistent topic / matched on both, or incompatible on both with the same
+   policy ids (as a permutation) *)
+Theorem C15_both_sides_agree :
+  forall c, option_equiv (writer_side c) (reader_side c).
+Proof. exact both_sides_agree. Qed.
+
+(* matched iff topic names equal, types compatible, partitions match per DDS, every RxO
+   policy compatible per the DDS table *)
+Theorem C15_writer_side_matched_iff_spec :
+  forall c, config_in_domain c = true -> config_known c = false ->
+    (writer_side c = Some VMatched <-> dds_should_match c = true).
+Proof. exact writer_side_matched_iff_spec. Qed.
+
+Theorem C15_reader_side_matched_iff_spec :
+  forall c, config_in_domain c = true -> config_known c = false ->
+    (reader_side c = Some VMatched <-> dds_should_match c = true).
+Proof. exact reader_side_matched_iff_spec. Qed.
+
+(* an incompatible pair is reported as offered / requested incompatible QoS, the status
+   naming exactly the offending policies (each once, last_policy_id among them) *)
+Theorem C15_writer_side_reports_incompatible :
+  forall c, config_in_domain c = true -> config_known c = false -> dds_incompatible_pair c = true ->
+    exists v, writer_side c = Some v /\ names_exactly v (spec_failing (c_off c) (c_req c)).
+Proof. exact writer_side_reports_incompatible. Qed.
+
+Theorem C15_reader_side_reports_incompatible :
+  forall c, config_in_domain c = true -> config_known c = false -> dds_incompatible_pair c = true ->
+    exists v, reader_side c = Some v /\ names_exactly v (spec_failing (c_off c) (c_req c)).
+Proof. exact reader_side_reports_incompatible. Qed.
+
+(* the boolean oracle applied to the implementation's observations means `names_exactly` *)
+Theorem C15_oracle_sound :
+  forall v fs, reports v fs = true <-> names_exactly v fs.
+Proof. exact reports_sound. Qed.
+
+(* non-vacuity: concrete non-trivial configurations meet the hypotheses *)
+Example C15_nonvacuous_match :
+  let c := example_cfg (mkeqos Volatile (mkpresentation ScopeInstance true false) Infinite (Finite (mkduration 1 0))
+                          (mkliveliness Automatic (Finite (mkduration 10 0))) BestEffort ByReceptionTimestamp Shared [0; 2]) in
+  config_in_domain c = true /\ config_known c = false /\ dds_should_match c = true /\ writer_side c = Some VMatched.
+Proof. exact example_matches. Qed.
+Example C15_nonvacuous_incompatible :
+  let c := example_cfg (mkeqos Persistent (mkpresentation ScopeInstance true false) Infinite (Finite (mkduration 1 0))
+                          (mkliveliness ManualByParticipant (Finite (mkduration 10 0))) BestEffort ByReceptionTimestamp Exclusive [0]) in
+  config_in_domain c = true /\ config_known c = false /\ dds_incompatible_pair c = true /\
+  writer_side c = Some (VIncompatible 2 [2; 6; 23]) /\ reader_side c = Some (VIncompatible 2 [2; 6; 23]).
+Proof. exact example_incompatible. Qed.
+Example C15_nonvacuous_partition :
+  names_supported [[97; 91; 97; 45; 99; 93; 42]; [120]] = true /\
+  known_partition [[97; 91; 97; 45; 99; 93; 42]; [120]] [[121]; [97; 98; 122; 122]] = false /\
+  partition_matched [[97; 91; 97; 45; 99; 93; 42]; [120]] [[121]; [97; 98; 122; 122]] = Some true.
+Proof. exact partition_example. Qed.
+
 Print Assumptions C15_reader_side_eq_spec.
 Print Assumptions C15_writer_side_eq_spec.
+Print Assumptions C15_both_functions_agree.
+Print Assumptions C15_reader_reported_policies_exact.
+Print Assumptions C15_writer_reported_policies_exact.
+Print Assumptions C15_reported_policies_no_duplicates.
+Print Assumptions C15_reported_policies_characterised.
+Print Assumptions C15_duration_order_is_length_order.
+Print Assumptions C15_liveliness_class_false_match.
+Print Assumptions C15_liveliness_class_false_incompatibility.
+Print Assumptions C15_presentation_class_false_incompatibility.
+Print Assumptions C15_translator_is_fnmatch.
+Print Assumptions C15_partition_match_eq_spec.
+Print Assumptions C15_partition_roles_symmetric.
+Print Assumptions C15_partition_classes_refuted.
+Print Assumptions C15_both_sides_agree.
+Print Assumptions C15_writer_side_matched_iff_spec.
+Print Assumptions C15_reader_side_matched_iff_spec.
+Print Assumptions C15_writer_side_reports_incompatible.
+Print Assumptions C15_reader_side_reports_incompatible.
+Print Assumptions C15_oracle_sound.
